@@ -186,6 +186,9 @@ def xhopLine (cur snap : HistState) (t : List String) : Option String :=
     let s2 := if sw then cur else snap
     let now := cur.now
     if now < s1.pool.rewardTs || now < s2.pool.rewardTs then pure "err SnapshotFromTheFuture" else
+    -- shapes 4 / 5: both legs name the same pool / pool two does not trade the intermediate mint: always refused
+    if te = 4 then pure "err DuplicateTwoHopPool" else
+    if te ≥ 5 then pure "err InvalidIntermediaryMint" else
     let arr1 := startTickIndexes s1.pool.tick s1.pool.ts d1
     let arr2 := startTickIndexes s2.pool.tick s2.pool.ts d2
     let cap := U64_MAX / 4
